@@ -447,9 +447,16 @@ func (c Cell) CapBound() Cap {
 	// to GetCenter() and faster to compute.  Neither one of these vectors yields the
 	// bounding cap with minimal surface area, but they are both pretty close.
 	cap := CapFromPoint(Point{faceUVToXYZ(int(c.face), c.uv.Center().X, c.uv.Center().Y).Normalize()})
-	for k := 0; k < 4; k++ {
-		cap = cap.AddPoint(c.Vertex(k))
+	// ContainsPoint accepts points up to 5 * dblEpsilon outside the (u,v)
+	// rectangle of the cell, and a point, the corners and the axis are each
+	// normalized with an error of their own, so the cap is built from the
+	// corners of a slightly larger rectangle rather than from the vertices,
+	// and its radius is rounded up by the error of the distance computations.
+	uv := c.uv.ExpandedByMargin(8 * dblEpsilon)
+	for _, corner := range uv.Vertices() {
+		cap = cap.AddPoint(Point{faceUVToXYZ(int(c.face), corner.X, corner.Y).Normalize()})
 	}
+	cap.radius = cap.radius.Expanded(2 * cap.radius.MaxPointError())
 	return cap
 }
 
